@@ -14,6 +14,7 @@ import (
 	"os"
 	"sort"
 	"strings"
+	"sync"
 	"time"
 
 	"github.com/anyproto/go-chash"
@@ -35,6 +36,9 @@ func (c *confComp) Init(a *app.App) error              { return nil }
 func (c *confComp) Name() string                       { return "config" }
 func (c *confComp) GetNodeConf() nodeconf.Configuration { return c.c }
 
+// nodeconf.ConfigUpdateGetter: the shortest period the service accepts (whole seconds)
+func (c *confComp) GetNodeConfUpdateInterval() int { return 1 }
+
 type accComp struct{ peerId string }
 
 func (c *accComp) Init(a *app.App) error { return nil }
@@ -43,16 +47,29 @@ func (c *accComp) Account() *accountdata.AccountKeys {
 	return &accountdata.AccountKeys{PeerId: c.peerId}
 }
 
-// source of configuration updates: hands out [next] to a service whose current configuration has another id
-type srcComp struct{ next *nodeconf.Configuration }
+// source of configuration updates: every call of GetLast (one per tick of the service's periodic updater) hands out
+// the next configuration of the participant's history - whatever its id (an identical re-delivery has the id of the
+// active configuration) - and reports ErrConfigurationNotChanged once the history is exhausted.
+type srcComp struct {
+	mu      sync.Mutex
+	queue   []nodeconf.Configuration
+	drained chan struct{} // closed when the last configuration of the history has been handed out
+}
 
 func (c *srcComp) Init(a *app.App) error { return nil }
 func (c *srcComp) Name() string          { return nodeconf.CNameSource }
 func (c *srcComp) GetLast(ctx context.Context, cur string) (nodeconf.Configuration, error) {
-	if c.next != nil && cur != c.next.Id {
-		return *c.next, nil
+	c.mu.Lock()
+	defer c.mu.Unlock()
+	if len(c.queue) == 0 {
+		return nodeconf.Configuration{}, nodeconf.ErrConfigurationNotChanged
 	}
-	return nodeconf.Configuration{}, nodeconf.ErrConfigurationNotChanged
+	next := c.queue[0]
+	c.queue = c.queue[1:]
+	if len(c.queue) == 0 {
+		close(c.drained)
+	}
+	return next, nil
 }
 
 type storeComp struct{}
@@ -72,44 +89,29 @@ func (c *coordComp) IsNetworkNeedsUpdate(ctx context.Context) (bool, error) {
 	return false, nil
 }
 
-// newService builds a real nodeconf service for participant [self].
-// viaUpdate = false: the configuration is the initial one (Init -> setLastConfiguration).
-// viaUpdate = true : the service starts from a DIFFERENT configuration (other id, nodes reversed, first node
-// turned into a file node) and receives [cfg] through the periodic update path
-// (Run -> updateConfiguration -> source.GetLast -> saveAndSetLastConfiguration -> setLastConfiguration).
-func newService(cfg nodeconf.Configuration, self string, viaUpdate bool) (svc nodeconf.Service, err error) {
+// newService builds a real nodeconf service for participant [self] and leads it through the history [hist]
+// (at least one configuration): hist[0] is the configuration it is started with (Init -> setLastConfiguration), every
+// further one is delivered through the periodic update path
+// (Run -> updateConfiguration -> source.GetLast -> saveAndSetLastConfiguration -> setLastConfiguration), one per tick.
+// Close() waits for the update that is in flight, so on return the whole history has been applied.
+func newService(hist []nodeconf.Configuration, self string) (svc nodeconf.Service, err error) {
 	a := new(app.App)
 	svc = nodeconf.New()
-	initial := cfg
-	src := &srcComp{}
-	if viaUpdate {
-		old := nodeconf.Configuration{Id: "verif-old", NetworkId: cfg.NetworkId}
-		for i := len(cfg.Nodes) - 1; i >= 0; i-- {
-			old.Nodes = append(old.Nodes, cfg.Nodes[i])
-		}
-		if len(old.Nodes) > 0 {
-			n := old.Nodes[0]
-			n.Types = []nodeconf.NodeType{nodeconf.NodeTypeFile}
-			old.Nodes[0] = n
-		}
-		initial = old
-		src.next = &cfg
-	}
-	a.Register(&confComp{initial}).Register(&accComp{self}).Register(src).Register(&storeComp{}).
+	src := &srcComp{queue: append([]nodeconf.Configuration{}, hist[1:]...), drained: make(chan struct{})}
+	a.Register(&confComp{hist[0]}).Register(&accComp{self}).Register(src).Register(&storeComp{}).
 		Register(&coordComp{}).Register(svc)
-	if err = svc.Init(a); err != nil || !viaUpdate {
+	if err = svc.Init(a); err != nil || len(hist) == 1 {
 		return
 	}
 	if err = svc.Run(context.Background()); err != nil {
 		return
 	}
-	deadline := time.Now().Add(10 * time.Second)
-	for svc.Id() != cfg.Id {
-		if time.Now().After(deadline) {
-			_ = svc.Close(context.Background())
-			return nil, fmt.Errorf("configuration update was not applied within 10 s (still %q)", svc.Id())
-		}
-		time.Sleep(200 * time.Microsecond)
+	select {
+	case <-src.drained:
+	case <-time.After(time.Duration(60+5*len(hist)) * time.Second):
+		_ = svc.Close(context.Background())
+		return nil, fmt.Errorf("the service fetched only %d of %d configuration updates within the deadline (active: %q)",
+			len(hist)-1-len(src.queue), len(hist)-1, svc.Id())
 	}
 	err = svc.Close(context.Background())
 	return
@@ -123,13 +125,28 @@ type nodeDesc struct {
 	Types  []string `json:"types"`
 }
 
+// an earlier configuration of a history
+type confVer struct {
+	Id    string     `json:"id"`
+	Nodes []nodeDesc `json:"nodes"`
+	How   string     `json:"how,omitempty"` // how the NEXT configuration of the chain was derived from this one
+}
+
+// One case = the configuration under test ([Nodes], id "verif-conf") + the histories through which the participants
+// reach it.  The pool of configurations is Earlier ++ [tested]; Hists[k] lists the pool indices participant k
+// receives (first: started with it; others: updates), always ending with the tested one.  Participants: the distinct
+// node ids of the tested configuration in order, then ids that occur only in earlier configurations, then the client.
+// Descriptions without "hists" (older corpus files): bit k of via_update set = participant k starts from a derived
+// other configuration and receives the tested one as an update.
 type confDesc struct {
 	Kind    string     `json:"kind"` // "conf"
 	Nodes   []nodeDesc `json:"nodes"`
+	Earlier []confVer  `json:"earlier,omitempty"`
+	Hists   [][]int    `json:"hists,omitempty"`
 	Client  string     `json:"client"`
 	Spaces  []string   `json:"spaces"`
 	TableOf int        `json:"table_of"` // index into participants whose partition table is recorded
-	Update  uint64     `json:"via_update"` // bit k set: participant k receives the configuration through the update path
+	Update  uint64     `json:"via_update,omitempty"`
 	Note    string     `json:"note,omitempty"`
 	Obs     string     `json:"observed,omitempty"`
 }
@@ -248,64 +265,237 @@ type runner struct {
 	samples []interface{}
 }
 
-func (r *runner) doConf(d confDesc) {
-	w := r.w
-	cfg := nodeconf.Configuration{Id: "verif-conf", NetworkId: "verif-net"}
-	var allIds []string
-	for _, n := range d.Nodes {
+const testedId = "verif-conf"
+
+func toConfiguration(id string, nodes []nodeDesc) nodeconf.Configuration {
+	cfg := nodeconf.Configuration{Id: id, NetworkId: "verif-net"}
+	for _, n := range nodes {
 		ts := make([]nodeconf.NodeType, len(n.Types))
 		for i, t := range n.Types {
 			ts[i] = nodeconf.NodeType(t)
 		}
 		cfg.Nodes = append(cfg.Nodes, nodeconf.Node{PeerId: n.PeerId, Addresses: n.Addrs, Types: ts})
-		allIds = append(allIds, n.PeerId)
 	}
-	allIds = append(allIds, d.Client)
-	rank := rankIds(allIds)
+	return cfg
+}
 
-	// participants: every distinct node id in configuration order, then the client
+// participants of a case (see confDesc)
+func participants(d confDesc) []string {
 	var parts []string
 	seen := map[string]bool{}
-	for _, n := range d.Nodes {
-		if !seen[n.PeerId] {
-			seen[n.PeerId] = true
-			parts = append(parts, n.PeerId)
+	add := func(ns []nodeDesc) {
+		for _, n := range ns {
+			if !seen[n.PeerId] {
+				seen[n.PeerId] = true
+				parts = append(parts, n.PeerId)
+			}
 		}
+	}
+	add(d.Nodes)
+	for _, e := range d.Earlier {
+		add(e.Nodes)
 	}
 	if !seen[d.Client] {
 		parts = append(parts, d.Client)
 	}
+	return parts
+}
 
-	type inst struct {
-		self string
-		svc  nodeconf.Service
+// normalise fills Earlier/Hists of a description written before histories existed
+func normalise(d confDesc) confDesc {
+	parts := participants(d)
+	if d.Hists == nil {
+		old := confVer{Id: "verif-old", How: "legacy: nodes reversed, first node turned into a file node"}
+		for i := len(d.Nodes) - 1; i >= 0; i-- {
+			old.Nodes = append(old.Nodes, d.Nodes[i])
+		}
+		if len(old.Nodes) > 0 {
+			n := old.Nodes[0]
+			n.Types = []string{"file"}
+			old.Nodes[0] = n
+		}
+		d.Earlier = []confVer{old}
+		for k := range parts {
+			if d.Update>>(uint(k)%60)&1 == 1 {
+				d.Hists = append(d.Hists, []int{0, 1})
+			} else {
+				d.Hists = append(d.Hists, []int{1})
+			}
+		}
+		d.Update = 0
 	}
-	var insts []inst
-	caseIdx := w.Count()
-	for _, p := range parts {
-		var svc nodeconf.Service
-		var err error
-		func() {
+	fin := len(d.Earlier)
+	for len(d.Hists) < len(parts) {
+		d.Hists = append(d.Hists, []int{fin})
+	}
+	d.Hists = d.Hists[:len(parts)]
+	for k, h := range d.Hists { // malformed replay input: out-of-range indices dropped, the tested configuration last
+		var c []int
+		for _, i := range h {
+			if i >= 0 && i <= fin {
+				c = append(c, i)
+			}
+		}
+		if len(c) == 0 || c[len(c)-1] != fin {
+			c = append(c, fin)
+		}
+		d.Hists[k] = c
+	}
+	return d
+}
+
+type inst struct {
+	self string
+	svc  nodeconf.Service
+	err  error
+}
+
+// a case whose services are being built (each participant in its own goroutine: a history takes one tick of the
+// service's updater - 1 s - per update, so the participants of many cases are led through their histories at once)
+type prepared struct {
+	d     confDesc
+	pool  []nodeconf.Configuration
+	insts []inst
+	wg    sync.WaitGroup
+}
+
+func prepare(d confDesc) *prepared {
+	d = normalise(d)
+	p := &prepared{d: d}
+	for _, e := range d.Earlier {
+		p.pool = append(p.pool, toConfiguration(e.Id, e.Nodes))
+	}
+	p.pool = append(p.pool, toConfiguration(testedId, d.Nodes))
+	parts := participants(d)
+	p.insts = make([]inst, len(parts))
+	for k, self := range parts {
+		p.insts[k].self = self
+		hist := make([]nodeconf.Configuration, len(d.Hists[k]))
+		for i, ix := range d.Hists[k] {
+			hist[i] = p.pool[ix]
+		}
+		p.wg.Add(1)
+		go func(in *inst, hist []nodeconf.Configuration) {
+			defer p.wg.Done()
 			defer func() {
 				if rec := recover(); rec != nil {
-					err = fmt.Errorf("panic: %v", rec)
+					in.err = fmt.Errorf("panic: %v", rec)
 				}
 			}()
-			svc, err = newService(cfg, p, d.Update>>(uint(len(insts))%60)&1 == 1)
-		}()
-		if err != nil {
-			w.Violation(caseIdx, "C18-init-failed", "nodeconf service Init failed or panicked for a generated configuration: "+err.Error(), d)
+			in.svc, in.err = newService(hist, in.self)
+		}(&p.insts[k], hist)
+	}
+	return p
+}
+
+// doConfs runs the cases in batches whose services are built concurrently
+func (r *runner) doConfs(ds []confDesc) {
+	for len(ds) > 0 {
+		n, parts := 0, 0
+		for n < len(ds) && n < 24 && (n == 0 || parts < 250) {
+			parts += len(participants(ds[n]))
+			n++
+		}
+		ps := make([]*prepared, n)
+		for i := 0; i < n; i++ {
+			ps[i] = prepare(ds[i])
+		}
+		for i := 0; i < n; i++ {
+			ps[i].wg.Wait()
+			r.emitConf(ps[i])
+			ps[i] = nil
+		}
+		ds = ds[n:]
+	}
+}
+
+func hasTree(ts []string) bool {
+	for _, t := range ts {
+		if t == "tree" {
+			return true
+		}
+	}
+	return false
+}
+
+func treeSet(ns []nodeDesc) map[string]bool {
+	m := map[string]bool{}
+	for _, n := range ns {
+		if hasTree(n.Types) {
+			m[n.PeerId] = true
+		}
+	}
+	return m
+}
+
+func (r *runner) emitConf(p *prepared) {
+	w := r.w
+	d := p.d
+	cfg := p.pool[len(p.pool)-1]
+	fin := len(p.pool) - 1
+	var allIds []string
+	for _, c := range p.pool {
+		for _, n := range c.Nodes {
+			allIds = append(allIds, n.PeerId)
+		}
+	}
+	allIds = append(allIds, d.Client)
+	rank := rankIds(allIds)
+
+	insts := p.insts
+	caseIdx := w.Count()
+	for k, in := range insts {
+		if in.err == nil && in.svc.Id() != testedId {
+			in.err = fmt.Errorf("after its history %v the participant's active configuration is %q, not the last one delivered", d.Hists[k], in.svc.Id())
+		}
+		if in.err != nil {
+			w.Violation(caseIdx, "C18-init-failed", fmt.Sprintf("nodeconf service of participant %q: Init/Run failed, panicked or did not apply its configuration history: %v", in.self, in.err), d)
 			w.Stat("conf_init_failed")
 			// still emit a (trivially empty) case so that the index exists
 			w.Add("(CChash [] 0 [] [] [])%uint63", d, "", false)
 			return
 		}
-		if d.Update>>(uint(len(insts))%60)&1 == 1 {
-			w.Stat("participant_via_update_path")
+		h := d.Hists[k]
+		if len(h) == 1 {
+			w.Stat("participant_fresh_on_tested_configuration")
 		} else {
-			w.Stat("participant_via_init")
+			w.Stat("participant_via_update_path")
+			w.Stat(fmt.Sprintf("participant_history_len_%d", len(h)))
+			prev := -1 // the configuration that was active when the tested one was (last) applied
+			for i := len(h) - 1; i >= 0; i-- {
+				if h[i] != fin {
+					prev = h[i]
+					break
+				}
+			}
+			if prev >= 0 {
+				a, b := treeSet(d.Earlier[prev].Nodes), treeSet(d.Nodes)
+				same := len(a) == len(b)
+				for id := range b {
+					same = same && a[id]
+				}
+				switch {
+				case same:
+					w.Stat("last_effective_update_keeps_sync_node_set")
+				case len(a) == len(b):
+					w.Stat("last_effective_update_changes_sync_node_set_same_size")
+				default:
+					w.Stat("last_effective_update_changes_sync_node_set_size")
+				}
+			}
+			for i := 1; i < len(h); i++ {
+				if h[i] == h[i-1] {
+					w.Stat("history_with_identical_redelivery")
+					break
+				}
+			}
+			for i := 0; i+1 < len(h); i++ {
+				if h[i] == fin && h[i+1] != fin {
+					w.Stat("history_leaves_and_returns_to_tested_configuration")
+					break
+				}
+			}
 		}
-		insts = append(insts, inst{p, svc})
 	}
 
 	// hash tables for the model
@@ -343,19 +533,43 @@ func (r *runner) doConf(d confDesc) {
 	// configuration term
 	unknown := map[string]uint64{}
 	addrRank := map[string]uint64{}
-	var nodes []string
-	for _, n := range d.Nodes {
-		var as, ts []uint64
-		for _, a := range n.Addrs {
-			if _, ok := addrRank[a]; !ok {
-				addrRank[a] = uint64(len(addrRank))
+	nodesTerm := func(ns []nodeDesc) string {
+		var nodes []string
+		for _, n := range ns {
+			var as, ts []uint64
+			for _, a := range n.Addrs {
+				if _, ok := addrRank[a]; !ok {
+					addrRank[a] = uint64(len(addrRank))
+				}
+				as = append(as, addrRank[a])
 			}
-			as = append(as, addrRank[a])
+			for _, t := range n.Types {
+				ts = append(ts, typeN(t, unknown))
+			}
+			nodes = append(nodes, fmt.Sprintf("(%d, %s, %s)", rank[n.PeerId], vlib.NList(as), vlib.NList(ts)))
 		}
-		for _, t := range n.Types {
-			ts = append(ts, typeN(t, unknown))
+		return vlib.List(nodes)
+	}
+	// the pool: configuration ids are numbered 1.. by first occurrence of the id string
+	confNum := map[string]uint64{}
+	var confs []string
+	for i, c := range p.pool {
+		if _, ok := confNum[c.Id]; !ok {
+			confNum[c.Id] = uint64(len(confNum) + 1)
 		}
-		nodes = append(nodes, fmt.Sprintf("(%d, %s, %s)", rank[n.PeerId], vlib.NList(as), vlib.NList(ts)))
+		ns := d.Nodes
+		if i < fin {
+			ns = d.Earlier[i].Nodes
+		}
+		confs = append(confs, fmt.Sprintf("(%d, %s)", confNum[c.Id], nodesTerm(ns)))
+	}
+	var hists []string
+	for k, in := range insts {
+		hv := make([]uint64, len(d.Hists[k]))
+		for i, ix := range d.Hists[k] {
+			hv[i] = uint64(ix)
+		}
+		hists = append(hists, vlib.Pair(vlib.N(rank[in.self]), vlib.NList(hv)))
 	}
 
 	// observed partition tables: recorded from one participant, all others must be identical to it
@@ -380,7 +594,8 @@ func (r *runner) doConf(d confDesc) {
 		for i := range o {
 			if strings.Join(o[i], "\x00") != strings.Join(tbl[i], "\x00") {
 				w.Violation(caseIdx, "C18-table-disagreement",
-					fmt.Sprintf("participants %q and %q hold different members for partition %d: %v vs %v", insts[tableOf].self, in.self, i, tbl[i], o[i]), d)
+					fmt.Sprintf("participants %q (history %v) and %q (history %v) hold the same configuration but different members for partition %d: %v vs %v",
+						insts[tableOf].self, d.Hists[tableOf], in.self, d.Hists[k], i, tbl[i], o[i]), d)
 				break
 			}
 		}
@@ -435,8 +650,8 @@ func (r *runner) doConf(d confDesc) {
 			obs = append(obs, rank[in.self], uint64(spaceIdx[s]), uint64(in.svc.Partition(s)), pack(ids, rank), rb)
 		}
 	}
-	d.Obs = fmt.Sprintf("%d participants x %d space ids, %d 'responsible' answers, partition 0 = %v", len(insts), len(d.Spaces), respCount, tbl[0])
-	term := vlib.App("CConf", hashList(ph), vlib.List(rows), vlib.List(keys), vlib.List(nodes), vlib.NList(rowsT), vlib.List(spaces), vlib.NList(obs)) + "%uint63"
+	d.Obs = fmt.Sprintf("%d participants (histories of %d configurations) x %d space ids, %d 'responsible' answers, partition 0 = %v", len(insts), len(p.pool), len(d.Spaces), respCount, tbl[0])
+	term := vlib.App("CConf", hashList(ph), vlib.List(rows), vlib.List(keys), vlib.List(confs), fmt.Sprint(fin), vlib.List(hists), vlib.NList(rowsT), vlib.List(spaces), vlib.NList(obs)) + "%uint63"
 	b, _ := json.Marshal(d)
 	nt := nTree >= 2 && len(insts) >= 2 && len(d.Spaces) >= 2
 	w.Add(term, d, string(b), nt)
@@ -657,6 +872,195 @@ func genConf(r *vlib.Rand, nTree, nOther int, dup bool) confDesc {
 	return d
 }
 
+// ---------------------------------------------------------------- configuration histories
+
+func cloneNodes(ns []nodeDesc) []nodeDesc {
+	c := make([]nodeDesc, len(ns))
+	for i, n := range ns {
+		c[i] = nodeDesc{PeerId: n.PeerId, Addrs: append([]string{}, n.Addrs...), Types: append([]string{}, n.Types...)}
+	}
+	return c
+}
+
+func withoutTree(ts []string) []string {
+	var res []string
+	for _, t := range ts {
+		if t != "tree" {
+			res = append(res, t)
+		}
+	}
+	return res
+}
+
+// mutateConf derives a neighbouring configuration: what an operator does between two published configurations.
+// Returns the new node list and the name of the step.
+func mutateConf(r *vlib.Rand, ns []nodeDesc, newId func() string) ([]nodeDesc, string) {
+	ns = cloneNodes(ns)
+	var trees, others []int
+	for i, n := range ns {
+		if hasTree(n.Types) {
+			trees = append(trees, i)
+		} else {
+			others = append(others, i)
+		}
+	}
+	addr := func() []string {
+		a := make([]string, r.Intn(3))
+		for i := range a {
+			a[i] = fmt.Sprintf("172.16.%d.%d:%d", r.Intn(4), r.Intn(250), 4000+r.Intn(100))
+		}
+		return a
+	}
+	remove := func(i int) { ns = append(ns[:i], ns[i+1:]...) }
+	demote := func(i int) string { // the node stops being a sync node: other role(s), no role, or gone
+		switch r.Intn(4) {
+		case 0:
+			ns[i].Types = append(withoutTree(ns[i].Types), "file")
+			return "file"
+		case 1:
+			ns[i].Types = withoutTree(ns[i].Types)
+			return "rest"
+		case 2:
+			ns[i].Types = []string{otherTypes[r.Intn(6)]}
+			return "other"
+		default:
+			remove(i)
+			return "gone"
+		}
+	}
+	promote := func(i int) {
+		if r.Bool() {
+			ns[i].Types = append(ns[i].Types, "tree")
+		} else {
+			ns[i].Types = []string{"tree"}
+		}
+	}
+	how := ""
+	switch op := r.Intn(16); {
+	case op < 6 && len(trees) > 0 && len(others) > 0: // role swap: a known non-sync peer takes over from a sync node
+		t, o := trees[r.Intn(len(trees))], others[r.Intn(len(others))]
+		promote(o)
+		how = "role-swap(demoted->" + demote(t) + ")"
+	case op < 7 && len(trees) > 0: // a sync node is replaced by a brand-new one
+		t := trees[r.Intn(len(trees))]
+		ns[t] = nodeDesc{PeerId: newId(), Addrs: addr(), Types: []string{"tree"}}
+		how = "replace-sync-node"
+	case op < 8 || (op < 9 && len(trees) == 0):
+		ns = append(ns, nodeDesc{PeerId: newId(), Addrs: addr(), Types: []string{"tree"}})
+		how = "add-sync-node"
+	case op < 9:
+		how = "remove-sync-node(" + demote(trees[r.Intn(len(trees))]) + ")"
+	case op < 10 && len(others) > 0:
+		promote(others[r.Intn(len(others))])
+		how = "promote"
+	case op < 11:
+		if len(others) > 0 && r.Bool() {
+			remove(others[r.Intn(len(others))])
+			how = "remove-other-node"
+		} else {
+			ns = append(ns, nodeDesc{PeerId: newId(), Addrs: addr(), Types: []string{otherTypes[r.Intn(6)]}})
+			how = "add-other-node"
+		}
+	case op < 13 && len(ns) > 0:
+		for k := 1 + r.Intn(len(ns)); k > 0; k-- {
+			ns[r.Intn(len(ns))].Addrs = addr()
+		}
+		how = "addresses-only"
+	case op < 14 && len(ns) > 0:
+		i := r.Intn(len(ns))
+		if r.Bool() {
+			ns[i].Types = append(ns[i].Types, otherTypes[r.Intn(6)])
+		} else if hasTree(ns[i].Types) {
+			ns[i].Types = []string{"tree"}
+		} else {
+			ns[i].Types = []string{otherTypes[r.Intn(6)]}
+		}
+		how = "other-types-only"
+	default:
+		how = "reorder"
+	}
+	if how == "reorder" || r.Chance(1, 3) {
+		p := r.Perm(len(ns))
+		sh := make([]nodeDesc, len(ns))
+		for j, k := range p {
+			sh[j] = ns[k]
+		}
+		ns = sh
+		if how != "reorder" {
+			how += "+reorder"
+		}
+	}
+	return ns, how
+}
+
+// withHistories turns a single-configuration case into a case with configuration histories: a chain of 1..3 earlier
+// configurations (derived backwards from the tested one, step by step) and, per participant, a history of 1..4
+// deliveries over that chain which ends with the tested configuration: the whole chain, sub-sequences (jumps),
+// identical re-deliveries, leaving the tested configuration and coming back; at least one participant is freshly
+// started on the tested configuration.
+func withHistories(r *vlib.Rand, d confDesc) confDesc {
+	used := map[string]bool{d.Client: true}
+	realistic := false
+	for _, n := range d.Nodes {
+		used[n.PeerId] = true
+		realistic = realistic || strings.HasPrefix(n.PeerId, "12D3KooW")
+	}
+	newId := func() string {
+		for {
+			id := "h" + randStr(r, "0123456789abcdefghij", 1+r.Intn(3))
+			if realistic {
+				id = "12D3KooW" + randStr(r, b58, 44)
+			}
+			if !used[id] {
+				used[id] = true
+				return id
+			}
+		}
+	}
+	k := 1 + r.Intn(3)
+	chain := make([]confVer, k) // chain[k-1] is the direct predecessor of the tested configuration
+	cur := d.Nodes
+	for i := k - 1; i >= 0; i-- {
+		ns, how := mutateConf(r, cur, newId)
+		chain[i] = confVer{Id: fmt.Sprintf("verif-h%d", i), Nodes: ns, How: how}
+		cur = ns
+	}
+	d.Earlier = chain
+	d.Update = 0
+	parts := participants(d)
+	fresh, full := r.Intn(len(parts)), r.Intn(len(parts))
+	d.Hists = make([][]int, len(parts))
+	for j := range parts {
+		var h []int
+		switch {
+		case j == fresh || r.Chance(1, 6):
+			h = []int{k}
+		case j == full || r.Chance(1, 4):
+			for i := 0; i <= k; i++ {
+				h = append(h, i)
+			}
+		default:
+			for i := 0; i < k; i++ {
+				if r.Bool() {
+					h = append(h, i)
+				}
+			}
+			if (len(h) == 0 || h[len(h)-1] != k-1) && (len(h) == 0 || r.Chance(1, 2)) {
+				h = append(h, k-1) // the direct predecessor is often the last step before the tested configuration
+			}
+			h = append(h, k)
+			if len(h) <= 3 && r.Chance(1, 4) { // identical re-delivery of one of them
+				i := r.Intn(len(h))
+				h = append(h[:i+1], h[i:]...)
+			} else if len(h) <= 2 && r.Chance(1, 3) { // started on (or reached) the tested one, left it, came back
+				h = append([]int{k}, h...)
+			}
+		}
+		d.Hists[j] = h
+	}
+	return d
+}
+
 func genSpaces(r *vlib.Rand) []string {
 	cid := func() string { return "bafyrei" + randStr(r, "abcdefghijklmnopqrstuvwxyz234567", 20+r.Intn(30)) }
 	suf := func() string { return randStr(r, "0123456789abcdefghijklmnopqrstuvwxyz", 1+r.Intn(14)) }
@@ -761,6 +1165,7 @@ func main() {
 
 	if o.Replay != "" {
 		w.C18SetPerShard(3)
+		var confs []confDesc
 		for _, raw := range vlib.ReadReplay(o.Replay) {
 			var k struct {
 				Kind string `json:"kind"`
@@ -771,15 +1176,19 @@ func main() {
 			if k.Kind == "chash" {
 				var d chashDesc
 				if json.Unmarshal(raw, &d) == nil {
+					run.doConfs(confs)
+					confs = nil
 					run.doChash(d)
 				}
 			} else {
 				var d confDesc
 				if json.Unmarshal(raw, &d) == nil {
-					run.doConf(d)
+					d.Obs = ""
+					confs = append(confs, d)
 				}
 			}
 		}
+		run.doConfs(confs)
 		w.Finish("replay", run.samples, nil)
 		return
 	}
@@ -810,13 +1219,15 @@ func main() {
 			sizes = append(sizes, n)
 		}
 	}
+	var confs []confDesc
 	for b := 0; b < o.Budget; b++ {
 		for i, n := range sizes {
-			d := genConf(r.Fork(uint64(b*1000+i)), n, 1+r.Intn(4), false)
-			run.doConf(d)
+			rr := r.Fork(uint64(b*1000 + i))
+			d := genConf(rr, n, 1+r.Intn(4), false)
+			confs = append(confs, withHistories(rr, d))
 			if n >= 2 && n <= 4 || (o.Tier == "thorough" && n >= 2 && n <= 12) {
 				for v := 0; v < nVariants; v++ {
-					run.doConf(variantOf(r, d))
+					confs = append(confs, withHistories(r, variantOf(r, d)))
 				}
 			}
 		}
@@ -829,9 +1240,11 @@ func main() {
 	}
 	for b := 0; b < o.Budget; b++ {
 		for i, n := range dupSizes {
-			run.doConf(genConf(r.Fork(uint64(500+b*1000+i)), n, r.Intn(3), true))
+			rr := r.Fork(uint64(500 + b*1000 + i))
+			confs = append(confs, withHistories(rr, genConf(rr, n, r.Intn(3), true)))
 		}
 	}
+	run.doConfs(confs)
 	w.C18SetPerShard(300)
 	nChash := 900
 	if o.Tier == "thorough" {
@@ -841,7 +1254,9 @@ func main() {
 	for k := 0; k < nChash; k++ {
 		run.doChash(genChash(r))
 	}
-	w.Finish("real nodeconf services (every node + a client per configuration; tree-node sets of 0..12 (thorough: ..32) nodes, random type mixes, "+
+	w.Finish("real nodeconf services (every node of the tested or an earlier configuration + a client per case), each led through its own HISTORY of 1..4 "+
+		"configurations via Init and Run->updateConfiguration (chains of role swaps, replaced/added/removed sync nodes, promotions, other nodes, address-only / "+
+		"type-only changes, reorderings; sub-sequences, identical re-deliveries, leaving and returning); observed after the last one; tree-node sets of 0..12 (thorough: ..32) nodes, random type mixes, "+
 		"shuffled orders, variants with the same tree-node set; 10+ space ids per configuration with/without '.' suffix, shared keys, empty keys) "+
 		"and bare go-chash instances with a custom Hasher (hash ranges 2..128 force ties; P 10..240, multiply factor 1..8, rf 1..5, duplicated members); "+
 		"a configuration case is non-trivial if it has >= 2 tree nodes, >= 2 participants and >= 2 space ids; a chash case if it has >= 2 distinct members; "+
